@@ -1071,3 +1071,45 @@ package genetics
 //@     invariant -1 <= #idx
 //@   loop 6:
 //@     invariant -1 <= #idx
+
+// ---- C03 / C06 / C02: spawning a population from a start genome ---------------------------------------------
+//@ func (*Genome).getLastNodeId
+//@   props C03
+//@   requires g != nil && nonNilNodes(g.Nodes) && (forall i :: 0 <= i && i < len(g.ControlGenes) ==> g.ControlGenes[i] != nil && g.ControlGenes[i].ControlNode != nil)
+//@   modifies nothing
+//@   ensures [err] result1 != nil <==> len(g.Nodes) == 0
+//@   ensures [last] result1 == nil ==> result0 >= g.Nodes[len(g.Nodes)-1].Id && (len(g.ControlGenes) == 0 ==> result0 == g.Nodes[len(g.Nodes)-1].Id)
+//@   ensures [controls] result1 == nil ==> (forall i :: 0 <= i && i < len(g.ControlGenes) ==> result0 >= g.ControlGenes[i].ControlNode.Id)
+//@   loop 1:
+//@     invariant -1 <= #idx && #idx < len(g.ControlGenes) && len(g.Nodes) > 0 && id >= g.Nodes[len(g.Nodes)-1].Id && (len(g.ControlGenes) == 0 ==> id == g.Nodes[len(g.Nodes)-1].Id)
+//@     invariant forall i :: 0 <= i && i <= #idx ==> id >= g.ControlGenes[i].ControlNode.Id
+//@ func (*Genome).getNextGeneInnovNum
+//@   props C03
+//@   requires g != nil && nonNilGenes(g.Genes) && (forall i :: 0 <= i && i < len(g.ControlGenes) ==> g.ControlGenes[i] != nil)
+//@   modifies nothing
+//@   ensures [err] result1 != nil <==> len(g.Genes) == 0
+//@   ensures [next] result1 == nil ==> result0 > g.Genes[len(g.Genes)-1].InnovationNum && (len(g.ControlGenes) == 0 ==> result0 == g.Genes[len(g.Genes)-1].InnovationNum + 1)
+//@   ensures [controls] result1 == nil && len(g.ControlGenes) > 0 ==> result0 > g.ControlGenes[len(g.ControlGenes)-1].InnovationNum
+// A spawned population: PopSize new organisms, each with a freshly allocated genome that has the start genome's topology (node ids, roles and
+// activation types; gene innovation numbers, endpoint ids, recurrence and ENABLED flags), and counters that continue after the start genome's
+// last node id and last innovation number (NextNodeId / NextInnovationNumber return the counter plus one, so 'counter >= last' is what makes every
+// number issued later larger than any the population holds; a gap is allowed). The function runs while the population is under construction and
+// not yet shared (exclusive): the plain writes of the counters are not subject to the lock discipline of C16.
+//@ pred sameTopology(c *Genome, g *Genome) = c != nil && len(c.Genes) == len(g.Genes) && len(c.Nodes) == len(g.Nodes) && (forall i :: 0 <= i && i < len(g.Genes) ==> c.Genes[i] != nil && c.Genes[i].Link != nil && c.Genes[i].InnovationNum == g.Genes[i].InnovationNum && c.Genes[i].IsEnabled == g.Genes[i].IsEnabled && c.Genes[i].Link.IsRecurrent == g.Genes[i].Link.IsRecurrent && c.Genes[i].Link.InNode.Id == g.Genes[i].Link.InNode.Id && c.Genes[i].Link.OutNode.Id == g.Genes[i].Link.OutNode.Id) && (forall i :: 0 <= i && i < len(g.Nodes) ==> c.Nodes[i] != nil && c.Nodes[i].Id == g.Nodes[i].Id && c.Nodes[i].NeuronType == g.Nodes[i].NeuronType && c.Nodes[i].ActivationType == g.Nodes[i].ActivationType)
+//@ func (*Population).spawn
+//@   props C03 C06 C02
+//@   exclusive
+//@   mode nosafety
+//@   assume_pre duplicate, mutateLinkWeights, speciate, getLastNodeId, getNextGeneInnovNum
+//@   requires p != nil && g != nil && opts != nil && len(g.ControlGenes) == 0
+//@   ensures [nodeCounter] err == nil ==> len(g.Nodes) > 0 && p.nextNodeId >= g.Nodes[len(g.Nodes)-1].Id
+//@   ensures [innovCounter] err == nil ==> len(g.Genes) > 0 && p.nextInnovNum >= g.Genes[len(g.Genes)-1].InnovationNum
+//@   assert [size] len(arg2) == old(len(p.Organisms)) + max(opts.PopSize, 0) @ before 1 speciate
+//@   assert [topology] forall k :: old(len(p.Organisms)) <= k && k < len(arg2) ==> arg2[k] != nil && fresh(arg2[k]) && fresh(arg2[k].Genotype) && arg2[k].Genotype.Id == k - old(len(p.Organisms)) && sameTopology(arg2[k].Genotype, g) @ before 1 speciate
+//@   loop 1:
+//@     invariant 0 <= count && (count <= opts.PopSize || count == 0) && len(p.Organisms) == old(len(p.Organisms)) + count
+//@     invariant [startKept] forall x *Gene :: wasAllocated(x) ==> x.InnovationNum == old(x.InnovationNum) && x.IsEnabled == old(x.IsEnabled) && x.Link == old(x.Link)
+//@     invariant [startLinks] forall l *network.Link :: wasAllocated(l) ==> l.InNode == old(l.InNode) && l.OutNode == old(l.OutNode) && l.IsRecurrent == old(l.IsRecurrent)
+//@     invariant [startNodes] forall n *network.NNode :: wasAllocated(n) ==> n.Id == old(n.Id) && n.NeuronType == old(n.NeuronType) && n.ActivationType == old(n.ActivationType)
+//@     invariant [startLists] sameSlice(g.Genes, old(g.Genes)) && unchanged(g.Genes) && sameSlice(g.Nodes, old(g.Nodes)) && unchanged(g.Nodes)
+//@     invariant [topology] forall k :: old(len(p.Organisms)) <= k && k < len(p.Organisms) ==> p.Organisms[k] != nil && fresh(p.Organisms[k]) && fresh(p.Organisms[k].Genotype) && p.Organisms[k].Genotype.Id == k - old(len(p.Organisms)) && sameTopology(p.Organisms[k].Genotype, g)
